@@ -108,8 +108,34 @@ def _np():
     return np
 
 
+def rational_rotation(rng):
+    """a proper rotation with rational entries, from a random integer quaternion."""
+    np = _np()
+    while True:
+        a, b, c, d = (rng.randint(-3, 3) for _ in range(4))
+        n = a * a + b * b + c * c + d * d
+        if n and (b or c or d):
+            break
+    return np.array([[a * a + b * b - c * c - d * d, 2 * (b * c - a * d), 2 * (b * d + a * c)],
+                     [2 * (b * c + a * d), a * a - b * b + c * c - d * d, 2 * (c * d - a * b)],
+                     [2 * (b * d - a * c), 2 * (c * d + a * b), a * a - b * b - c * c + d * d]], dtype=float) / n
+
+
+def reorient(rng, am, box):
+    """the same cell turned rigidly into another orientation (no longer LAMMPS-normal): still cubic / hexagonal / ..."""
+    return am.Box(vects=box.vects @ rational_rotation(rng).T, origin=box.origin)
+
+
 def gen_box(rng, am):
-    """(Box, family) with exactly representable vectors for most families."""
+    """(Box, family) with exactly representable vectors for most families; one cell in six of the standard
+    families is turned into a general orientation."""
+    box, fam = _gen_box(rng, am)
+    if fam not in ('general', 'lefthanded') and rng.random() < 1 / 6:
+        return reorient(rng, am, box), fam + '-reoriented'
+    return box, fam
+
+
+def _gen_box(rng, am):
     np = _np()
     fam = rng.choice(['cubic', 'tetragonal', 'orthorhombic', 'hexagonal', 'monoclinic', 'triclinic', 'rhombohedral',
                       'general', 'general', 'lefthanded'])
@@ -247,25 +273,39 @@ def parse_result(out, e=NEXTRA):
 
 
 def gen_sizes(rng):
+    """three multipliers: int (positive / negative) or (lo, hi) tuple; a third of the integers are numpy integers
+    (np.int64 / np.int32 / np.intp: what index arithmetic on arrays hands over), the rest Python ints."""
+    np = _np()
+
+    def npint(x):
+        return rng.choice([np.int64, np.int32, np.intp])(x) if rng.random() < 0.33 else x
+
     out = []
     for _ in range(3):
         r = rng.random()
         if r < 0.4:
-            out.append(rng.randint(1, 3))
+            out.append(npint(rng.randint(1, 3)))
         elif r < 0.6:
-            out.append(-rng.randint(1, 3))
+            out.append(npint(-rng.randint(1, 3)))
         else:
             lo, hi = -rng.randint(0, 2), rng.randint(0, 2)
             if lo == 0 and hi == 0:
                 hi = 1
-            out.append((lo, hi))
+            out.append((npint(lo), npint(hi)))
     return out
+
+
+def sizes_repr(sizes):
+    """the multipliers as given, numpy integers marked."""
+    def one(x):
+        return str(x) if type(x) is int else f'{type(x).__name__}({int(x)})'
+    return '(' + ', '.join(('(' + ', '.join(one(y) for y in x) + ')') if isinstance(x, tuple) else one(x) for x in sizes) + ')'
 
 
 def norm_size(s):
     if isinstance(s, tuple):
-        return s
-    return (0, s) if s > 0 else (s, 0)
+        return (int(s[0]), int(s[1]))
+    return (0, int(s)) if s > 0 else (int(s), 0)
 
 
 def _det3(U):
@@ -380,7 +420,6 @@ def correspond(ctx):
     for it in range(ctx.n(120, 1500)):
         sysm, fam, _ = gen_system(rng, am)
         sizes = gen_sizes(rng)
-        new = sysm.supersize(*sizes)
         bl, al = sys_line(sysm)
         ns = [norm_size(s) for s in sizes]
         line = f"supersize {NEXTRA} {sysm.natoms} {bl} " + ' '.join(f'{lo} {hi}' for lo, hi in ns) + ' ' + al
@@ -388,6 +427,13 @@ def correspond(ctx):
         mult = math.prod(h - l for l, h in ns)
         ctx.stats.case('supersize', line, nontrivial=mult > 1,
                        sample={'op': 'supersize', 'family': fam, 'sizes': [list(s) for s in ns], 'natoms': sysm.natoms})
+        try:
+            new = sysm.supersize(*sizes)
+        except Exception as e:  # noqa - an exception of the implementation is an observation
+            if not out.startswith('err:'):
+                ctx.disagree('supersize:impl-raises', f'supersize{sizes_repr(sizes)} raised {type(e).__name__}: {e}; the model '
+                             f'returns {mult} x {sysm.natoms} atoms', {'op': 'supersize', 'line': line, 'sizes': sizes_repr(sizes)})
+            continue
         if out.startswith('err:'):
             ctx.disagree('supersize:model-refuses', f'model refused {sizes}: {out}', {'line': line})
             continue
@@ -402,7 +448,7 @@ def correspond(ctx):
                     ok = False
                     break
         if not ok:
-            ctx.disagree('supersize', f'supersize{tuple(sizes)} differs from the model (family {fam})',
+            ctx.disagree('supersize', f'supersize{sizes_repr(sizes)} differs from the model (family {fam})',
                          {'op': 'supersize', 'line': line, 'sizes': [list(s) for s in ns],
                           'impl_natoms': int(new.natoms), 'model_natoms': len(atoms)})
     # int forms of the multipliers
@@ -476,6 +522,9 @@ def gen_hex_case(rng, am):
         a = rng.choice([2.5, 3.0, 3.25])
         org = [cm.dyadic(rng, -3, 3, 2) for _ in range(3)] if rng.random() < 0.5 else [0.0, 0.0, 0.0]
         box = am.Box(a=a, b=a, c=rng.choice([4.0, 5.0, 5.25]), gamma=120, origin=org)
+        famname = 'hexagonal'
+        if rng.random() < 1 / 3:
+            box, famname = reorient(rng, am, box), 'hexagonal-reoriented'
         r = rng.random()
         if r < 0.45:
             # any integer 3-index set, converted by the library itself: thirds in floating point, which
@@ -499,7 +548,7 @@ def gen_hex_case(rng, am):
             arg[rng.randrange(3), rng.randrange(3)] += rng.choice([-1, 1]) * rng.choice([1e-6, 0.01, 1.0])
             form = 'hex4-sum-not-zero'
         extra = near_face_atoms(rng, U) if rng.random() < 0.3 else []
-        sysm, fam, spos = gen_system(rng, am, (box, 'hexagonal'), extra=extra)
+        sysm, fam, spos = gen_system(rng, am, (box, famname), extra=extra)
         return sysm, fam, spos, U, d, arg, form
 
 
@@ -761,14 +810,19 @@ def search(ctx, broken):
         M = math.prod(h - l for l, h in ns)
         replay = {'op': 'supersize', 'family': fam, 'vects': sysm.box.vects.tolist(), 'origin': sysm.box.origin.tolist(),
                   'spos': [[float(x) for x in s] for s in spos], 'atype': sysm.atoms.atype.tolist(), 'sizes': [list(s) for s in ns]}
-        new = sysm.supersize(*sizes)
-        ctx.stats.case('oracle:supersize', (fam, tuple(ns), tuple(spos)))
-        _check_same_crystal(ctx, 'supersize', f'supersize{tuple(sizes)} ({fam})', sysm, spos, new, I3, M, replay)
+        ctx.stats.case('oracle:supersize', (fam, sizes_repr(sizes), tuple(spos)))
+        try:
+            new = sysm.supersize(*sizes)
+        except Exception as e:  # noqa
+            ctx.violate('supersize:raises', f'supersize{sizes_repr(sizes)} ({fam}) raised {type(e).__name__}: {e} for valid '
+                        f'integer multipliers', dict(replay, sizes_given=sizes_repr(sizes)))
+            continue
+        _check_same_crystal(ctx, 'supersize', f'supersize{sizes_repr(sizes)} ({fam})', sysm, spos, new, I3, M, replay)
         V0, o0 = before[1], before[2]
         wantv = np.array([V0[i] * (ns[i][1] - ns[i][0]) for i in range(3)])
         wanto = o0 + sum(V0[i] * ns[i][0] for i in range(3))
         if not (np.allclose(new.box.vects, wantv, rtol=0, atol=1e-9) and np.allclose(new.box.origin, wanto, rtol=0, atol=1e-9)):
-            ctx.violate('supersize:box', f'supersize{tuple(sizes)} ({fam}): box {new.box.vects.tolist()} at '
+            ctx.violate('supersize:box', f'supersize{sizes_repr(sizes)} ({fam}): box {new.box.vects.tolist()} at '
                         f'{new.box.origin.tolist()}, expected the multiplied vectors {wantv.tolist()} at {wanto.tolist()}',
                         replay)
         if not (np.array_equal(before[0], sysm.atoms.pos) and np.array_equal(before[1], sysm.box.vects)
@@ -896,6 +950,8 @@ def gen_conv_case(rng, am, setting, mode='random'):
                         t[k] = Fraction(1)
         stored.append(tuple(t))
     box, fam = gen_conv_box(rng, am, setting, plain=(mode == 'plain'))
+    if mode == 'random' and rng.random() < 1 / 6:
+        box, fam = reorient(rng, am, box), fam + '-reoriented'
     shift = [Fraction(0)] * 3
     if mode == 'offset':
         # the whole crystal displaced rigidly: no atom on the lattice points, one (or several) a little off them
@@ -980,15 +1036,42 @@ def _run_conversion(ctx, am, case):
         return
     # "undo one another": the composite is the identity re-expression - same cell vectors, composite
     # transform = identity, and the atoms are the original ones modulo the lattice *without* any rotation
-    if not np.allclose(conv2.box.vects, conv.box.vects, rtol=0, atol=1e-8 * conv.box.a):
+    # (a conventional cell given in a general orientation comes back LAMMPS-normal: turned by the composite transform)
+    if not np.allclose(conv2.box.vects, conv.box.vects @ Ttot.T, rtol=0, atol=1e-8 * conv.box.a):
         ctx.violate('conversion:cell', f'c2p then p2c changed the cell {conv.box.vects.tolist()} '
-                    f'-> {conv2.box.vects.tolist()} ({what})', replay)
-    elif not np.allclose(Ttot, np.eye(3), atol=1e-8):
+                    f'-> {conv2.box.vects.tolist()} (composite transform {Ttot.tolist()}; {what})', replay)
+    elif conv.box.is_lammps_norm() and not np.allclose(Ttot, np.eye(3), atol=1e-8):
         ctx.violate('conversion:transform', f'c2p then p2c: composite transform {Ttot.tolist()} '
                     f'is not the identity ({what})', replay)
     else:
         _check_same_crystal(ctx, 'conversion:undo', f'c2p then p2c compared in place: {what}', conv,
-                            sp_exact, conv2, np.eye(3), 1, replay)
+                            sp_exact, conv2, np.eye(3) if conv.box.is_lammps_norm() else Ttot, 1, replay)
+        # ... and the other way round: the primitive cell converted to the conventional one and back is itself.
+        # (check_basis=False: conv2 sits at the Cartesian origin with the atoms' Cartesian positions kept, so for an
+        # original box origin that is no lattice vector its lattice points are not at its relative (0,0,0), which is
+        # all the lattice-site test looks at - the documented case for switching the test off)
+        try:
+            prim2, T3 = conv2.dump('conventional_to_primitive', setting=setting, return_transform=True,
+                                   check_basis=False)
+        except Exception as e:  # noqa
+            ctx.violate('conversion:raises', f'converting the conventional cell obtained from the primitive one back '
+                        f'raised {type(e).__name__}: {e} ({what})', replay)
+            return
+        T32 = T3 @ T2
+        if prim2.natoms != prim.natoms or not np.allclose(prim2.box.vects, prim.box.vects, rtol=0, atol=1e-8 * conv.box.a) \
+                or not np.allclose(T32, np.eye(3), atol=1e-8):
+            ctx.violate('conversion:p2c-undone', f'p2c then c2p does not return the primitive cell: {prim.box.vects.tolist()} '
+                        f'-> {prim2.box.vects.tolist()}, composite transform {T32.tolist()} ({what})', replay)
+        else:
+            tol = _tol_rel(np, prim.box.vects, prim.atoms.pos, prim2.atoms.pos)
+            s1 = prim.atoms_prop('pos', scale=True)
+            s2 = prim2.atoms_prop('pos', scale=True)
+            for k in range(prim2.natoms):
+                if not any(int(prim.atoms.atype[i]) == int(prim2.atoms.atype[k]) and _all_payload(prim, i) == _all_payload(prim2, k)
+                           and all(circ(s1[i][j], s2[k][j]) < tol for j in range(3)) for i in range(prim.natoms)):
+                    ctx.violate('conversion:p2c-undone', f'p2c then c2p: atom {k} of the primitive cell is not where it was '
+                                f'(rel {s2[k].tolist()}; {what})', replay)
+                    break
 
 
 def _corr_basis(ctx, rng, am):
